@@ -65,18 +65,19 @@ package db
 //@   props C01 C04 C12 C17
 //@   opt params=cbrowid cbpl
 //@   opt results=done err
-//@   modifies * pos halt
+//@   modifies * -M:S_db_KeyCol pos halt
 //@   requires [nohalt] !halt
 //@   requires [item] cbrowid == tb_rowid(cur_tree, pos) && cbpl == tb_payload(cur_tree, pos) && wf_payload(cbpl)
-//@   ensures err == nil ==> pos == old(pos) + 1 && (halt <==> done)
-//@   ensures err == nil && searching ==> done
+//@   ensures err == nil && !done ==> pos == old(pos) + 1 && !halt
+//@   ensures err == nil && done ==> halt
+//@   ensures err == nil && searching ==> done && pos == old(pos) + 1
 
 // Child-level callback of an interior table page: walks the subtree of page `page` completely.
 //@ functype db.interiorIterCB
 //@   props C01 C04 C12 C17
 //@   opt params=page
 //@   opt results=done err
-//@   modifies * pos halt
+//@   modifies * -M:S_db_KeyCol pos halt
 //@   requires [nohalt] !halt
 //@   requires [child] tree_of(page) == cur_tree
 //@   requires [cursor] (!searching ==> pos == p_lo(page)) && (searching ==> ule(p_lo(page), TFIRST()) && ule(TFIRST(), p_hi(page)) && pos == TFIRST())
@@ -90,7 +91,7 @@ package db
 //@   props C01 C12 C17
 //@   opt params=self r db cb
 //@   opt results=done err
-//@   modifies * pos halt
+//@   modifies * -M:S_db_KeyCol pos halt
 //@   requires [nonnil] self != nil && cb != nil
 //@   requires [nohalt] !halt && !searching
 //@   requires [nodewf] tleaf_wf(self)
@@ -108,7 +109,7 @@ package db
 //@   props C01 C12 C17
 //@   uses table_tree
 //@   opt results=done err
-//@   modifies * pos halt
+//@   modifies * -M:S_db_KeyCol pos halt
 //@   requires l != nil && cb != nil
 //@   requires !halt && !searching
 //@   requires tree_of(pg(l)) == cur_tree && pos == p_lo(pg(l))
@@ -131,7 +132,7 @@ package db
 //@ func (*db.Database).openTable
 //@   props C01 C04 C12
 //@   trusted seam: page cache + decode (see C08, C14)
-//@   modifies *
+//@   modifies * -M:S_db_KeyCol
 //@   trusted-ensures err == nil ==> r0 != nil && iref(r0) != nil && pg(iref(r0)) == page && tleaf_wf(iref(r0))
 
 // ---------------------------------------------------------------------------------------
@@ -161,7 +162,7 @@ package db
 //@   props C04 C12
 //@   opt params=self r db rowid cb
 //@   opt results=done err
-//@   modifies * pos halt
+//@   modifies * -M:S_db_KeyCol pos halt
 //@   requires [nonnil] self != nil && cb != nil
 //@   requires [mode] searching && rowid == skey && !halt
 //@   requires [nodewf] tleaf_wf(self)
@@ -177,7 +178,7 @@ package db
 //@   props C04 C12
 //@   uses table_tree table_sorted
 //@   opt results=done err
-//@   modifies * pos halt
+//@   modifies * -M:S_db_KeyCol pos halt
 //@   requires l != nil && cb != nil && searching && rowid == skey && !halt
 //@   requires tree_of(pg(l)) == cur_tree && ule(p_lo(pg(l)), TFIRST()) && ule(TFIRST(), p_hi(pg(l))) && pos == TFIRST()
 //@   ensures [found] err == nil && ult(TFIRST(), p_hi(pg(l))) ==> done && halt && pos == old(pos) + 1
@@ -218,7 +219,7 @@ package db
 
 //@ func db.addOverflow
 //@   props C01 C02 C05 C12 C14
-//@   modifies mem alloc
+//@   modifies M:bv8 alloc
 //@   requires wf_payload(pl)
 //@   ensures [len] err == nil ==> len(r0) == pl.Length
 //@   ensures [inline] err == nil && pl.Overflow == 0 ==> r0 == pl.Payload[:pl.Length]
@@ -232,7 +233,7 @@ package db
 //@   props C01 C17
 //@   opt params=rowid rec
 //@   opt results=done
-//@   modifies * pos halt
+//@   modifies * -M:S_db_KeyCol pos halt
 //@   requires [nohalt] !halt
 //@   requires [item] rowid == tb_rowid(cur_tree, pos) && recof(rec, tb_payload(cur_tree, pos))
 //@   ensures pos == old(pos) + 1 && (halt <==> done)
@@ -240,7 +241,7 @@ package db
 //@ func (*db.Table).Scan
 //@   props C01 C12 C17
 //@   uses table_tree
-//@   modifies *
+//@   modifies * -M:S_db_KeyCol
 //@   requires t != nil && cb != nil
 //@   ghost-entry cur_tree = tree_of(t.root)
 //@   ghost-entry pos = p_lo(t.root)
@@ -260,7 +261,7 @@ package db
 //@ func (*db.Table).Rowid
 //@   props C04 C12
 //@   uses table_tree table_sorted
-//@   modifies *
+//@   modifies * -M:S_db_KeyCol
 //@   requires t != nil && tree_of(t.root) == t.root
 //@   ghost-entry cur_tree = t.root
 //@   ghost-entry searching = true
@@ -282,3 +283,250 @@ package db
 //@   closure-invariant halt && tb_rowid(cur_tree, pos - 1) == rowid ==> recPl != nil
 //@   ghost-exit pos = old(pos) + 1
 //@   ghost-exit halt = true
+
+// ---------------------------------------------------------------------------------------
+// Index trees: like table trees, but an interior cell carries an entry of its own, which is the item
+// between its left child and the next child.
+//@ axioms index_tree
+//@ (assert (forall ((X Int)) (! (= (p_hi (pg X)) (bvadd (p_lo (pg X)) (s_len (F_db_indexLeaf_cells X)))) :pattern ((F_db_indexLeaf_cells X)))))
+//@ (assert (forall ((X Int) (a (_ BitVec 64))) (! (=> (and (bvule (s_off (F_db_indexLeaf_cells X)) a) (bvult a (bvadd (s_off (F_db_indexLeaf_cells X)) (s_len (F_db_indexLeaf_cells X))))) (= (ix_payload (tree_of (pg X)) (bvadd (p_lo (pg X)) (bvsub a (s_off (F_db_indexLeaf_cells X))))) (select (FE_db_indexLeaf_cells X) a))) :pattern ((select (FE_db_indexLeaf_cells X) a)))))
+//@ (assert (forall ((X Int)) (! (= (c_lo X #x0000000000000000) (p_lo (pg X))) :pattern ((F_db_indexInterior_cells X)))))
+//@ (assert (forall ((X Int) (a (_ BitVec 64))) (! (=> (and (bvule (s_off (F_db_indexInterior_cells X)) a) (bvult a (bvadd (s_off (F_db_indexInterior_cells X)) (s_len (F_db_indexInterior_cells X))))) (and (= (p_lo (S_db_indexInteriorCell_0_left (select (FE_db_indexInterior_cells X) a))) (c_lo X (bvsub a (s_off (F_db_indexInterior_cells X))))) (= (ix_payload (tree_of (pg X)) (p_hi (S_db_indexInteriorCell_0_left (select (FE_db_indexInterior_cells X) a)))) (S_db_indexInteriorCell_1_payload (select (FE_db_indexInterior_cells X) a))) (= (c_lo X (bvadd (bvsub a (s_off (F_db_indexInterior_cells X))) #x0000000000000001)) (bvadd (p_hi (S_db_indexInteriorCell_0_left (select (FE_db_indexInterior_cells X) a))) #x0000000000000001)) (= (tree_of (S_db_indexInteriorCell_0_left (select (FE_db_indexInterior_cells X) a))) (tree_of (pg X))))) :pattern ((select (FE_db_indexInterior_cells X) a)))))
+//@ (assert (forall ((X Int)) (! (and (= (p_lo (F_db_indexInterior_rightmost X)) (c_lo X (s_len (F_db_indexInterior_cells X)))) (= (p_hi (F_db_indexInterior_rightmost X)) (p_hi (pg X))) (= (tree_of (F_db_indexInterior_rightmost X)) (tree_of (pg X)))) :pattern ((F_db_indexInterior_rightmost X)))))
+
+// Entry-level callback of an index walk: the decoded record of item `pos`.
+//@ functype db.indexIterCB
+//@   props C02 C03 C12 C13 C17
+//@   opt params=cbrec
+//@   opt results=done err
+//@   modifies * -M:S_db_KeyCol pos halt
+//@   requires [nohalt] !halt
+//@   requires [item] recof(cbrec, ix_payload(cur_tree, pos)) && RECOK(cbrec)
+//@   ensures err == nil && !done ==> pos == old(pos) + 1 && !halt
+//@   ensures err == nil && done ==> halt
+
+//@ iface db.indexBtree.Iter
+//@   props C02 C12 C13 C17
+//@   opt params=self r db cb
+//@   opt results=done err
+//@   modifies * -M:S_db_KeyCol pos halt
+//@   requires [nonnil] self != nil && cb != nil
+//@   requires [nohalt] !halt
+//@   requires [nodewf] ileaf_wf(self) && iint_wf(self)
+//@   requires [cursor] tree_of(pg(self)) == cur_tree && pos == p_lo(pg(self))
+//@   ensures [all] err == nil && !done ==> pos == p_hi(pg(self)) && !halt
+//@   ensures [stopped] err == nil && done ==> halt
+
+//@ func (*db.indexLeaf).Iter
+//@   implements iface db.indexBtree.Iter
+//@   uses index_tree
+//@   loop 1 invariant 0 <= $i && $i <= len(self.cells) && pos == p_lo(pg(self)) + $i && !halt
+//@   loop 1 decreases len(self.cells) - $i
+
+//@ func (*db.indexInterior).Iter
+//@   implements iface db.indexBtree.Iter
+//@   uses index_tree
+//@   loop 1 invariant 0 <= $i && $i <= len(self.cells) && pos == c_lo(self, $i) && !halt
+//@   loop 1 decreases len(self.cells) - $i
+
+//@ func (*db.Database).openIndex
+//@   props C02 C03 C12 C13
+//@   trusted seam: page cache + decode (see C08, C14)
+//@   modifies * -M:S_db_KeyCol
+//@   trusted-ensures err == nil ==> r0 != nil && iref(r0) != nil && pg(iref(r0)) == page && ileaf_wf(iref(r0)) && iint_wf(iref(r0))
+
+// User-level callback of the index scans.
+//@ functype db.RecordCB
+//@   props C02 C03 C13 C17
+//@   opt params=cbrec
+//@   opt results=done
+//@   modifies * -M:S_db_KeyCol pos halt
+//@   requires [nohalt] !halt
+//@   requires [item] recof(cbrec, ix_payload(cur_tree, pos))
+//@   requires [filter] (eqmode ==> eqls(ikey, ix_payload(cur_tree, pos))) && (rngmode ==> !srch(tokey, ix_payload(cur_tree, pos)))
+//@   ensures pos == old(pos) + 1 && (halt <==> done)
+
+//@ func (*db.Index).Scan
+//@   props C02 C12 C17
+//@   uses index_tree
+//@   modifies * -M:S_db_KeyCol
+//@   requires in != nil && cb != nil
+//@   ghost-entry cur_tree = tree_of(in.root)
+//@   ghost-entry pos = p_lo(in.root)
+//@   ghost-entry halt = false
+//@   ghost-entry searching = false
+//@   ghost-entry eqmode = false
+//@   ghost-entry rngmode = false
+//@   ensures-before-exit [all] r0 == nil && !halt ==> pos == p_hi(in.root)
+//@   ghost-exit cur_tree = old(cur_tree)
+//@   ghost-exit pos = old(pos)
+//@   ghost-exit halt = old(halt)
+//@   ghost-exit searching = old(searching)
+//@   ghost-exit eqmode = old(eqmode)
+//@   ghost-exit rngmode = old(rngmode)
+
+//@ func (*db.Index).Scan$1
+//@   implements functype db.indexIterCB
+//@   free-requires cb != nil && !eqmode && !rngmode
+
+// ---------------------------------------------------------------------------------------
+// Key search in index trees (C03, C13). search_fn / equals_fn name the results of Search / Equals on a
+// decoded record; srch(k, pl) / eqls(k, pl) are the same as functions of the stored payload (decoding
+// is deterministic). ifirst(t, k): first position of index tree t whose entry is not less than k.
+//@ ghost ikey Slice
+//@ ghost eqmode bool
+//@ ghost rngmode bool
+//@ ghost tokey Slice
+//@ smt index_search
+//@ (declare-fun search_fn (Slice Slice) Bool)
+//@ (declare-fun equals_fn (Slice Slice) Bool)
+//@ (declare-fun srch (Slice S_db_cellPayload) Bool)
+//@ (declare-fun eqls (Slice S_db_cellPayload) Bool)
+//@ (declare-fun ifirst ((_ BitVec 64) Slice) (_ BitVec 64))
+//@ (assert (forall ((k Slice) (rec Slice) (pl S_db_cellPayload)) (! (=> (recof rec pl) (and (= (search_fn k rec) (srch k pl)) (= (equals_fn k rec) (eqls k pl)))) :pattern ((recof rec pl) (search_fn k rec)) :pattern ((recof rec pl) (equals_fn k rec)))))
+
+// Well-formedness: positions nest, and the entries are sorted under the key's comparison flags,
+// which is what makes ifirst well defined: entry j lies before ifirst(t,k) iff Search(k, entry j) is false.
+//@ axioms index_sorted
+//@ (assert (forall ((p (_ BitVec 64))) (! (and (bvule (p_lo (tree_of p)) (p_lo p)) (bvule (p_lo p) (p_hi p)) (bvule (p_hi p) (p_hi (tree_of p))) (bvule (p_hi (tree_of p)) #x0000ffffffffffff)) :pattern ((p_lo p)) :pattern ((p_hi p)))))
+//@ (assert (forall ((t (_ BitVec 64)) (k Slice)) (! (and (bvule (p_lo t) (ifirst t k)) (bvule (ifirst t k) (p_hi t))) :pattern ((ifirst t k)))))
+//@ (assert (forall ((t (_ BitVec 64)) (k Slice) (j (_ BitVec 64))) (! (=> (and (bvule (p_lo t) j) (bvult j (p_hi t))) (= (bvult j (ifirst t k)) (not (srch k (ix_payload t j))))) :pattern ((ifirst t k) (ix_payload t j)))))
+//@ (assert (forall ((X Int) (a (_ BitVec 64))) (! (=> (and (bvule (s_off (F_db_indexInterior_cells X)) a) (bvult a (bvadd (s_off (F_db_indexInterior_cells X)) (s_len (F_db_indexInterior_cells X))))) (and (bvule (p_lo (pg X)) (c_lo X (bvsub a (s_off (F_db_indexInterior_cells X))))) (bvule (c_lo X (bvsub a (s_off (F_db_indexInterior_cells X)))) (p_hi (S_db_indexInteriorCell_0_left (select (FE_db_indexInterior_cells X) a)))) (bvult (p_hi (S_db_indexInteriorCell_0_left (select (FE_db_indexInterior_cells X) a))) (c_lo X (bvadd (bvsub a (s_off (F_db_indexInterior_cells X))) #x0000000000000001))) (bvule (c_lo X (bvadd (bvsub a (s_off (F_db_indexInterior_cells X))) #x0000000000000001)) (p_hi (pg X))))) :pattern ((select (FE_db_indexInterior_cells X) a)))))
+
+//@ macro IFIRST() = ifirst(cur_tree, ikey)
+
+//@ func db.indexBinSearch
+//@   props C03 C13 C12 C05
+//@   modifies M:bv8 alloc
+//@   requires wf_payload(pl) && KEYOK(key)
+//@   ensures [value] err == nil ==> r0 == srch(key, pl)
+//@   ensures [onerror] err != nil ==> r0
+
+//@ iface db.indexBtree.IterMin
+//@   props C03 C13 C12 C17
+//@   opt params=self r db key cb
+//@   opt results=done err
+//@   modifies * -M:S_db_KeyCol pos halt
+//@   requires [nonnil] self != nil && cb != nil
+//@   requires [mode] searching && key == ikey && KEYOK(key) && !halt
+//@   requires [nodewf] ileaf_wf(self) && iint_wf(self)
+//@   requires [cursor] tree_of(pg(self)) == cur_tree && ule(p_lo(pg(self)), IFIRST()) && ule(IFIRST(), p_hi(pg(self))) && pos == IFIRST()
+//@   ensures [all] err == nil && !done ==> pos == p_hi(pg(self)) && !halt
+//@   ensures [stopped] err == nil && done ==> halt
+
+//@ func (*db.indexLeaf).IterMin
+//@   implements iface db.indexBtree.IterMin
+//@   uses index_tree index_sorted
+//@   loop 1 invariant 0 <= $i && $i <= len(self.cells) && n + $i <= len(self.cells) && pos == p_lo(pg(self)) + n + $i && !halt
+//@   loop 1 decreases len(self.cells) - n - $i
+
+//@ func (*db.indexLeaf).IterMin$1
+//@   props C03 C13 C12
+//@   modifies M:bv8 alloc box
+//@   requires 0 <= n && n < len(l.cells) && l != nil && ileaf_wf(l) && KEYOK(key)
+//@   ensures [latch] old(searchErr) != nil ==> searchErr != nil
+//@   ensures [value] searchErr == nil ==> result == srch(key, l.cells[n])
+
+//@ func (*db.indexInterior).IterMin
+//@   implements iface db.indexBtree.IterMin
+//@   uses index_tree index_sorted
+//@   loop 1 invariant 0 <= $i && $i <= len(self.cells) && n + $i <= len(self.cells) && !halt
+//@   loop 1 invariant !useIter ==> $i == 0 && pos == IFIRST() && ule(c_lo(self, n), IFIRST())
+//@   loop 1 invariant useIter ==> pos == c_lo(self, n + $i)
+//@   loop 1 exit n + $i == len(self.cells)
+//@   loop 1 decreases len(self.cells) - n - $i
+
+//@ func (*db.indexInterior).IterMin$1
+//@   props C03 C13 C12
+//@   modifies M:bv8 alloc box
+//@   requires 0 <= n && n < len(l.cells) && l != nil && iint_wf(l) && KEYOK(key)
+//@   ensures [latch] old(searchErr) != nil ==> searchErr != nil
+//@   ensures [value] searchErr == nil ==> result == srch(key, l.cells[n].payload)
+
+// ---------------------------------------------------------------------------------------
+// The keyed scans of the low-level API.
+
+//@ func (*db.Index).ScanMin
+//@   props C03 C13 C12 C17
+//@   uses index_tree index_sorted
+//@   modifies * -M:S_db_KeyCol
+//@   requires in != nil && cb != nil && tree_of(in.root) == in.root && KEYOK(from)
+//@   ghost-entry cur_tree = in.root
+//@   ghost-entry searching = true
+//@   ghost-entry ikey = from
+//@   ghost-entry pos = ifirst(in.root, from)
+//@   ghost-entry halt = false
+//@   ghost-entry eqmode = false
+//@   ghost-entry rngmode = false
+//@   ensures-before-exit [all] r0 == nil && !halt ==> pos == p_hi(in.root)
+//@   ghost-exit cur_tree = old(cur_tree)
+//@   ghost-exit pos = old(pos)
+//@   ghost-exit halt = old(halt)
+//@   ghost-exit searching = old(searching)
+//@   ghost-exit eqmode = old(eqmode)
+//@   ghost-exit rngmode = old(rngmode)
+//@   ghost-exit ikey = old(ikey)
+//@   ghost-exit tokey = old(tokey)
+
+//@ func (*db.Index).ScanMin$1
+//@   implements functype db.indexIterCB
+//@   free-requires cb != nil && !eqmode && !rngmode
+
+//@ func (*db.Index).ScanEq
+//@   props C03 C13 C12 C17
+//@   uses index_tree index_sorted
+//@   modifies * -M:S_db_KeyCol
+//@   requires in != nil && cb != nil && tree_of(in.root) == in.root && KEYOK(key)
+//@   ghost-entry cur_tree = in.root
+//@   ghost-entry searching = true
+//@   ghost-entry ikey = key
+//@   ghost-entry pos = ifirst(in.root, key)
+//@   ghost-entry halt = false
+//@   ghost-entry eqmode = true
+//@   ghost-entry rngmode = false
+//@   ensures-before-exit [all] r0 == nil && !halt ==> pos == p_hi(in.root)
+//@   ghost-exit cur_tree = old(cur_tree)
+//@   ghost-exit pos = old(pos)
+//@   ghost-exit halt = old(halt)
+//@   ghost-exit searching = old(searching)
+//@   ghost-exit eqmode = old(eqmode)
+//@   ghost-exit rngmode = old(rngmode)
+//@   ghost-exit ikey = old(ikey)
+//@   ghost-exit tokey = old(tokey)
+
+// stops at the first entry that is not equal to the key; forwards every equal entry
+//@ func (*db.Index).ScanEq$1
+//@   implements functype db.indexIterCB
+//@   free-requires cb != nil && key == ikey && KEYOK(key) && eqmode && !rngmode
+//@   ensures [filter] err == nil && !eqls(ikey, ix_payload(cur_tree, old(pos))) ==> done && pos == old(pos)
+//@   ghost-exit halt = halt || done
+
+//@ func (*db.Index).ScanRange
+//@   props C03 C13 C12 C17
+//@   uses index_tree index_sorted
+//@   modifies * -M:S_db_KeyCol
+//@   requires in != nil && cb != nil && tree_of(in.root) == in.root && KEYOK(from) && KEYOK(to)
+//@   ghost-entry cur_tree = in.root
+//@   ghost-entry searching = true
+//@   ghost-entry ikey = from
+//@   ghost-entry pos = ifirst(in.root, from)
+//@   ghost-entry halt = false
+//@   ghost-entry eqmode = false
+//@   ghost-entry rngmode = true
+//@   ghost-entry tokey = to
+//@   ensures-before-exit [all] r0 == nil && !halt ==> pos == p_hi(in.root)
+//@   ghost-exit cur_tree = old(cur_tree)
+//@   ghost-exit pos = old(pos)
+//@   ghost-exit halt = old(halt)
+//@   ghost-exit searching = old(searching)
+//@   ghost-exit eqmode = old(eqmode)
+//@   ghost-exit rngmode = old(rngmode)
+//@   ghost-exit ikey = old(ikey)
+//@   ghost-exit tokey = old(tokey)
+
+// stops at the first entry that is not less than the upper key
+//@ func (*db.Index).ScanRange$1
+//@   implements functype db.indexIterCB
+//@   free-requires cb != nil && to == tokey && KEYOK(to) && rngmode && !eqmode
+//@   ensures [filter] err == nil && srch(tokey, ix_payload(cur_tree, old(pos))) ==> done && pos == old(pos)
+//@   ghost-exit halt = halt || done
